@@ -72,6 +72,10 @@ func allInputs(seed uint64, ne int) []*Input {
 	for i, p := range per {
 		out = append(out, p...)
 		out = append(out, shapeInputs(dmodel.Dialects[i])...)
+		out = append(out, chainInputs(dmodel.Dialects[i], "")...)
+		if dmodel.Dialects[i] == dmodel.MySQL {
+			out = append(out, flavourInputs(out)...)
+		}
 		out = append(out, fileInputs(seed, dmodel.Dialects[i])...)
 		if dmodel.Dialects[i] != dmodel.SQLite { // SQLite's planner refuses AddSchema / DropSchema
 			out = append(out, rawInputs(dmodel.Dialects[i])...)
@@ -416,15 +420,15 @@ func runRep(c *rt.Ctx, ins []*Input, dirs []*DirInput, reps int) {
 				c.Eval(rt.Digest(in.Name, k, sum(b)), nontrivial)
 				c.Count("rep:kind:"+k, 1)
 				if strings.HasPrefix(k, "error.") {
-					c.Count("rep:atlas-refusal:"+string(in.Dialect)+":"+k, 1)
+					c.Count("rep:atlas-refusal:"+dkey(in.Dialect, in.Flavour)+":"+k, 1)
 				}
 			}
 			c.Count("rep:runs", int64(reps))
-			c.Count("rep:input:"+string(in.Dialect)+":"+inputClass(in.Name), 1)
+			c.Count("rep:input:"+dkey(in.Dialect, in.Flavour)+":"+inputClass(in.Name), 1)
 			if p, ok := first[i]["plan.cmds"]; ok {
 				c.Count("rep:planned-statements", int64(strings.Count(string(p), ";\n")+1))
 			}
-			reportRep(c, "rep", in.Name, string(in.Dialect), cs, first[i], mm)
+			reportRep(c, "rep", in.Name, dkey(in.Dialect, in.Flavour), cs, first[i], mm)
 			if len(mm) == 0 && strings.Contains(in.Name, "edit") && sampleSlot(&repSamples, 1) {
 				c.Sample(map[string]any{"leg": "rep", "input": in.Name, "edits": in.Edits, "runs": reps, "verdict": "held",
 					"digests": digestsOf(first[i]), "plan_head": clip(first[i]["plan.cmds"], 400)})
@@ -597,7 +601,7 @@ func replay(c *rt.Ctx, raw json.RawMessage) {
 			}
 			first, mm := repeat(reps, func(int) map[string][]byte { return Outputs(in) })
 			fmt.Println("kinds:", kinds(first))
-			reportRep(c, "rep", in.Name, string(in.Dialect), cs, first, mm)
+			reportRep(c, "rep", in.Name, dkey(in.Dialect, in.Flavour), cs, first, mm)
 			for _, m := range mm {
 				fmt.Printf("VIOLATED: %s run %d: %s\n", m.kind, m.rep, firstDiff(m.a, m.b))
 			}
